@@ -1,6 +1,6 @@
 (** * AbsDPQProofs: the min-max heap order theorems of AbsSpec.v.
     Helper layers: AbsDPQLevels.v, AbsDPQTrickle.v, AbsDPQBubble.v. *)
-From PQV Require Import AbsDPQLevels AbsDPQTrickle.
+From PQV Require Import AbsDPQLevels AbsDPQTrickle AbsDPQBubble.
 From Coq Require Import Lia.
 
 Section AbsDPQProofs.
@@ -59,6 +59,74 @@ Proof.
   split; [done|]. split; [done|]. by exists pos.
 Qed.
 
+Theorem a_dpush_new_ok : a_dpush_new_stmt pr ple.
+Proof.
+  intros Hord l e Hm%gord_ex_minmax; [|done].
+  destruct (a_dpush_new_aux pr ple Hord l e Hm) as [H1 H2].
+  split; [|done]. by apply gord_ex_minmax.
+Qed.
+
+Theorem a_dupdate_ok : a_dupdate_stmt pr ple.
+Proof.
+  intros Hord l pos e' Hm%gord_ex_minmax _; [|done].
+  destruct (a_dupdate_aux pr ple Hord l pos e' Hm) as [H1 H2].
+  split; [|done]. by apply gord_ex_minmax.
+Qed.
+
+Theorem a_dremove_ok : a_dremove_stmt pr ple.
+Proof.
+  intros Hord l pos x Hm%gord_ex_minmax Hx; [|done].
+  destruct (a_dremove_aux pr ple Hord l pos x Hm Hx) as [H1 H2].
+  split; [|done]. by apply gord_ex_minmax.
+Qed.
+
+Theorem a_pop_ext_if_ok : a_pop_ext_if_stmt pr ple.
+Proof.
+  intros Hord mx l f Hm%gord_ex_minmax; [|done].
+  pose proof (a_pop_ext_if_aux pr ple Hord mx l f Hm) as H.
+  destruct (a_pop_ext_if pr ple mx l f) as [ [r l'] t].
+  destruct H as [H1 H2]. split; [|done]. by apply gord_ex_minmax.
+Qed.
+
+Lemma dpop_all_aux (Hord : ord_ok ple) mn fuel : forall l,
+  minmax_ord pr ple l -> length l < fuel ->
+  (a_dpop_all pr ple mn fuel l).1 ≡ₚ l /\
+  Sorted (fun a b => led ple mn (pr a) (pr b) = true) (a_dpop_all pr ple mn fuel l).1.
+Proof.
+  induction fuel as [|fuel IH]; intros l Hm Hlen; [lia|].
+  cbn [a_dpop_all].
+  assert (let '(r, l', _) := (if mn then a_pop_min pr ple l else a_pop_max pr ple l) in
+    minmax_ord pr ple l' /\
+    match r with
+    | Some x => (forall y, y ∈ l -> led ple mn (pr x) (pr y) = true) /\ l ≡ₚ x :: l'
+    | None => l = []
+    end) as Hpop.
+  { destruct mn.
+    - pose proof (a_pop_min_ok Hord l Hm) as H.
+      destruct (a_pop_min pr ple l) as [ [r l'] t]. destruct H as [H1 H2]. split; [done|].
+      destruct r; [|by destruct H2]. destruct H2 as ([_ Hmin] & _ & Hp). by split.
+    - pose proof (a_pop_max_ok Hord l Hm) as H.
+      destruct (a_pop_max pr ple l) as [ [r l'] t]. destruct H as [H1 H2]. split; [done|].
+      destruct r; [|by destruct H2]. destruct H2 as ([_ Hmax] & Hp & _). by split. }
+  destruct (if mn then a_pop_min pr ple l else a_pop_max pr ple l) as [ [r l'] t].
+  destruct Hpop as [Hm' Hr]. destruct r as [x|]; cbn [fst].
+  2:{ subst l. split; [done|constructor]. }
+  destruct Hr as [Hmin Hp].
+  destruct (IH l' Hm') as [Hp' Hs'].
+  { apply Permutation_length in Hp. cbn [length] in Hp. lia. }
+  destruct (a_dpop_all pr ple mn fuel l') as [out t']. cbn [fst] in *.
+  split; [by rewrite Hp, Hp'|].
+  constructor; [done|]. destruct out as [|z out']; constructor.
+  apply Hmin. rewrite Hp. right. rewrite <- Hp'. left.
+Qed.
+
+Theorem a_dpop_all_ok : a_dpop_all_stmt pr ple.
+Proof.
+  intros Hord l Hm. split.
+  - apply (dpop_all_aux Hord true); [done|lia].
+  - apply (dpop_all_aux Hord false); [done|lia].
+Qed.
+
 End AbsDPQProofs.
 
 Print Assumptions minmax_root_min.
@@ -66,3 +134,8 @@ Print Assumptions afind_max_ok.
 Print Assumptions adbuild_ok.
 Print Assumptions a_pop_min_ok.
 Print Assumptions a_pop_max_ok.
+Print Assumptions a_dpush_new_ok.
+Print Assumptions a_dupdate_ok.
+Print Assumptions a_dremove_ok.
+Print Assumptions a_pop_ext_if_ok.
+Print Assumptions a_dpop_all_ok.
